@@ -81,7 +81,8 @@ pub fn quiet_panics() {
     let default = std::panic::take_hook();
     std::panic::set_hook(Box::new(move |info| {
         let in_harness = info.location().is_some_and(|l| l.file().contains("/verif/harness/") || l.file().starts_with("src/"));
-        if in_harness {
+        let injected = info.payload().downcast_ref::<&str>().is_some_and(|m| m.contains("injected by the harness"));
+        if in_harness && !injected {
             default(info);
         }
     }));
